@@ -24,6 +24,9 @@ type c16Case struct {
 	// GenN > 0: the key list is not spelled out but generated: c16GenKeys(GenN, GenStyle)
 	GenN     int `json:"generated_keys,omitempty"`
 	GenStyle int `json:"generated_style,omitempty"`
+	// AfterBigM: the judged call is made on a SigBits object that was first asked for c16BigM counters over the
+	// whole key set (the history of the run on small sets; a replayed case carries it)
+	AfterBigM bool `json:"after_big_m_call_over_the_whole_set,omitempty"`
 }
 
 func (cs c16Case) keys() []string {
@@ -207,7 +210,7 @@ func init() {
 		ID:     "C16",
 		Word32: true,
 		Level:  "exploration",
-		Rule: "E1 bounded-exhaustive enumeration: key sets = every non-empty subset (in sorted order) of the 13 strings of length ≤2 over {00,'a',ff}, each behind the stems of 0/7/8/9/16/17/24/31/32/33/64/65 bytes; every subset of 12 keys built from 4 stem variants (first byte 's'/0x00/0xff, eighth byte 0x80); every subset of the 13 strings of length ≤2 over {'a',80,c3} and over {7f,80,bf} (UTF-8 continuation and lead bytes); every subset of 5 short keys behind EVERY stem length 0..80; two key sets with a full 256-byte fan-out below one key; four large key sets taken whole (31, 63, 121 and 341 keys); every subset of 12 keys built from 3 variants of a 17-byte (and of a 25-byte) stem that differ in the first 8-byte chunk and agree in the later ones × 4 tails; chains a, aa, aaa, ... of 33, 34, 65, 66 keys (C17 also 130 and 258) and a 36-level directory tree taken whole (deep nesting); every subset of the 15 strings of length ≤3 over {00,'a'} and every subset of size ≤4 of the 40 strings of length ≤3 over {00,'a',ff} behind stems of 0 and 8 bytes (thorough adds every subset of the 21 strings of length ≤2 over {00,01,'a',ff} and the subsets of size 5..6 of the 40 strings): FirstDiffBits on the set; New+CountPrefixes for every 0 ≤ s, s+2 ≤ e ≤ len and every m in {1,2,4,7,10,17,26}; a BYTE-LANE sweep: 8-byte keys with a class byte ('a'/80/ff) in lane L and the difference in lane D, every ordered pair (L, D), all subsets of the 6 keys, stems 0 and 8. Generated key lists of EVERY threshold size n = b-1, b, b+1 (b in 2^k, 3·2^k, 10^k, 2·10^k, 5·10^k) from 1000 up to 400001 keys (thorough: 2^20+1), in two styles ('k'+3-byte big-endian counter; 8-byte stem + 7 decimal digits): FirstDiffBits on the list, CountPrefixes (m in {1,7,17} and the FULL depth: two bits beyond the deepest first difference of the range) over the whole list, its halves and short ranges around every 1/8th. LONG keys: eight keys around a shared stem of EVERY threshold length 81..70000 (thorough 2^20+1) bytes (keys and shared prefixes beyond 255, 4095, 65535 bytes), same calls. UNSORTED lists (the first clause is about every list): FirstDiffBits on every list of 1..4 (thorough 5) keys, repetitions included, over 15 keys (short keys, prefixes of each other, keys sharing 8, 16, 17 and 25 bytes, stem variants that differ early and agree later). " +
+		Rule: "E1 bounded-exhaustive enumeration: key sets = every non-empty subset (in sorted order) of the 13 strings of length ≤2 over {00,'a',ff}, each behind the stems of 0/7/8/9/16/17/24/31/32/33/64/65 bytes; every subset of 12 keys built from 4 stem variants (first byte 's'/0x00/0xff, eighth byte 0x80); every subset of the 13 strings of length ≤2 over {'a',80,c3} and over {7f,80,bf} (UTF-8 continuation and lead bytes); every subset of 5 short keys behind EVERY stem length 0..80; two key sets with a full 256-byte fan-out below one key; four large key sets taken whole (31, 63, 121 and 341 keys); every subset of 12 keys built from 3 variants of a 17-byte (and of a 25-byte) stem that differ in the first 8-byte chunk and agree in the later ones × 4 tails; chains a, aa, aaa, ... of 33, 34, 65, 66 keys (C17 also 130 and 258) and a 36-level directory tree taken whole (deep nesting); every subset of the 15 strings of length ≤3 over {00,'a'} and every subset of size ≤4 of the 40 strings of length ≤3 over {00,'a',ff} behind stems of 0 and 8 bytes (thorough adds every subset of the 21 strings of length ≤2 over {00,01,'a',ff} and the subsets of size 5..6 of the 40 strings): FirstDiffBits on the set; New+CountPrefixes for every 0 ≤ s, s+2 ≤ e ≤ len and every m in {1,2,4,7,10,17,26}, preceded - on sets of 2..5 keys - by one call over the whole set with m = 3000 (m has no upper bound) on the same SigBits object; a BYTE-LANE sweep: 8-byte keys with a class byte ('a'/80/ff) in lane L and the difference in lane D, every ordered pair (L, D), all subsets of the 6 keys, stems 0 and 8. Generated key lists of EVERY threshold size n = b-1, b, b+1 (b in 2^k, 3·2^k, 10^k, 2·10^k, 5·10^k) from 1000 up to 400001 keys (thorough: 2^20+1), in two styles ('k'+3-byte big-endian counter; 8-byte stem + 7 decimal digits): FirstDiffBits on the list, CountPrefixes (m in {1,7,17} and the FULL depth: two bits beyond the deepest first difference of the range) over the whole list, its halves and short ranges around every 1/8th. LONG keys: eight keys around a shared stem of EVERY threshold length 81..70000 (thorough 2^20+1) bytes (keys and shared prefixes beyond 255, 4095, 65535 bytes), same calls. UNSORTED lists (the first clause is about every list): FirstDiffBits on every list of 1..4 (thorough 5) keys, repetitions included, over 15 keys (short keys, prefixes of each other, keys sharing 8, 16, 17 and 25 bytes, stem variants that differ early and agree later). " +
 			"Oracle: first differing index of the '0'/'1' renderings (8·min(len) for a byte-prefix); m0 = minimum over the range; counter i = number of distinct values of the bit string truncated to m0+i bits (adjacent-compare count in the hot path, cross-checked against a map count). A case is one call; non-trivial when the range holds ≥3 keys or the set has a shared stem; key sets that re-occur in a later family are executed again but counted once.",
 		Assumptions: []string{"key sets are drawn from small byte alphabets behind fixed stems; the 8-byte chunk boundaries are crossed through the stems"},
 		Run:         c16Run,
@@ -231,6 +234,22 @@ func countPrefixes(keys []string, s, e, m int32) (min int32, r []int32, p string
 		}
 	}()
 	sb := sigbits.New(keys)
+	min, r = sb.CountPrefixes(s, e, m)
+	return min, r, ""
+}
+
+// countPrefixesAfterBigM: the same call on an object that was asked for c16BigM counters over all keys first.
+func countPrefixesAfterBigM(keys []string, s, e, m int32) (min int32, r []int32, p string) {
+	defer func() {
+		if e := recover(); e != nil {
+			p = fmt.Sprint("panic: ", e)
+		}
+	}()
+	sb := sigbits.New(keys)
+	func() {
+		defer func() { recover() }()
+		sb.CountPrefixes(0, int32(len(keys)), c16BigM)
+	}()
 	min, r = sb.CountPrefixes(s, e, m)
 	return min, r, ""
 }
@@ -305,6 +324,10 @@ var c16Ms = []int32{1, 2, 4, 7, 10, 17, 26}
 
 // c16MaxM: the largest member of c16Ms (the reference computes that many counters once per range).
 const c16MaxM = 26
+
+// c16BigM: a number of counters far beyond the bits of any key of the small families; asked for once per key
+// set of at most c16BigMKeys keys, before the other ranges of the same SigBits object are judged.
+const c16BigM, c16BigMKeys = 3000, 5
 
 var c16Bystander = []string{"", "\x00\x00", "x", "x\x80", "yz"}
 
@@ -593,6 +616,9 @@ func c16Run(c *mc.Ctx) {
 			}
 			ranges := int64(k-1) * int64(k) / 2 // pairs s<e with e-s ≥ 2: C(k+1,2)-k = k(k-1)/2
 			c.Expect(binom(n, k) * int64(len(f.stems)) * (1 + int64(len(c16Ms))*ranges))
+			if k >= 2 && k <= c16BigMKeys {
+				c.Expect(binom(n, k) * int64(len(f.stems))) // the one call with a very large m
+			}
 		}
 	}
 	c.Par(len(shards), func(si int) {
@@ -621,7 +647,7 @@ func c16Run(c *mc.Ctx) {
 			dup := c16Dup(fams, sh.fam, sh.stem, ix)
 			order := int64(si)<<36 | sets<<12
 			mk := func(s, e, m int32) c16Case {
-				return c16Case{Keys: gen.BytesList(append([]string(nil), keys...)), S: s, E: e, M: m}
+				return c16Case{Keys: gen.BytesList(append([]string(nil), keys...)), S: s, E: e, M: m, AfterBigM: len(keys) >= 2 && len(keys) <= c16BigMKeys && m != c16BigM}
 			}
 			// FirstDiffBits
 			want := make([]int32, 0, len(keys))
@@ -643,6 +669,27 @@ func c16Run(c *mc.Ctx) {
 			sb := sigbits.New(keys)
 			// bystander: another SigBits built afterwards must not influence this one
 			_ = sigbits.New(c16Bystander)
+			// m has no upper bound in the statement: on small sets ONE call over the whole set asks for c16BigM
+			// counters (far more than there are bits) FIRST; every range of the same object is judged afterwards
+			if n <= c16BigMKeys {
+				m0, cnt := refCounts(bits, keys, 0, n, c16BigM)
+				gm, gc, p := func() (a int32, b []int32, p string) {
+					defer func() {
+						if e := recover(); e != nil {
+							p = fmt.Sprint("panic: ", e)
+						}
+					}()
+					a, b = sb.CountPrefixes(0, n, c16BigM)
+					return
+				}()
+				if p != "" || gm != m0 || !eqI32(gc, cnt) {
+					c.Fail(order|int64(n)<<8|1<<30, "CountPrefixes", "CountPrefixes", mk(0, n, c16BigM), fmt.Sprintf("%s(%d,%s)", p, gm, c16DiffSummary(gc, cnt)), fmt.Sprintf("(%d,equal to the reference)", m0))
+				}
+				evals++
+				if !dup {
+					nontriv++
+				}
+			}
 			for s := int32(0); s+2 <= n; s++ {
 				for e := s + 2; e <= n; e++ {
 					m0, cnt := refCounts(bits, keys, s, e, c16MaxM)
@@ -803,7 +850,15 @@ func c16Judge(kind string, cs c16Case) (got, want string) {
 	case "CountPrefixes":
 		m0, _ := refCounts(bits, keys, cs.S, cs.E, 0)
 		cnt := refCountsMap(bits, cs.S, cs.E, m0, int(cs.M))
-		gm, gc, p := countPrefixes(keys, cs.S, cs.E, cs.M)
+		if cs.M == c16BigM {
+			gm, gc, p := countPrefixes(keys, cs.S, cs.E, cs.M)
+			return fmt.Sprintf("%s(%d,%s)", p, gm, c16DiffSummary(gc, cnt)), fmt.Sprintf("(%d,equal to the reference)", m0)
+		}
+		f := countPrefixes
+		if cs.AfterBigM {
+			f = countPrefixesAfterBigM
+		}
+		gm, gc, p := f(keys, cs.S, cs.E, cs.M)
 		return fmt.Sprintf("%s(%d,%v)", p, gm, gc), fmt.Sprintf("(%d,%v)", m0, cnt)
 	}
 	return "unknown kind " + kind, ""
